@@ -140,10 +140,11 @@ PatNames(p, n) == /\ (p = S_them \/ WildMatch(GlobParts(p), n))
 S_filt == <<95,102,105,108,116,95>>  S_cond == <<95,99,111,110,100,95>>
 RECURSIVE LettersEnd(_, _)
 LettersEnd(t, i) == IF i <= Len(t) /\ IsLower(t[i]) THEN LettersEnd(t, i + 1) ELSE i
+GenLetters == 10      \* a generated name carries exactly this many drawn letters - nothing else is reserved
 GenPrefix(n) ==       \* <<>>: not a generated name
     IF HasPrefix(n, S_filt) THEN
-        LET e == LettersEnd(n, 7) IN IF e > 7 /\ e <= Len(n) /\ n[e] = CH_US THEN SubSeq(n, 1, e) ELSE <<>>
-    ELSE IF HasPrefix(n, S_cond) /\ Len(n) > 6 /\ LettersEnd(n, 7) = Len(n) + 1 THEN n
+        LET e == LettersEnd(n, 7) IN IF e = 7 + GenLetters /\ e <= Len(n) /\ n[e] = CH_US THEN SubSeq(n, 1, e) ELSE <<>>
+    ELSE IF HasPrefix(n, S_cond) /\ Len(n) = 6 + GenLetters /\ LettersEnd(n, 7) = Len(n) + 1 THEN n
     ELSE <<>>
 \* indices of the detection names a selector pattern refers to (ns = FALSE: without name spaces - the mechanism before
 \* the repair, kept for the negative control of MC_Filter)
